@@ -257,7 +257,29 @@ def pair_sites(ctx, repo):
         ctx.violated("R3", "Results.sort_list", where(mod, fn), detail, key="sort_list")
 
     # table / parameters / costs: own data of the same individual
+    def traversal(meth):
+        """the data source a Results method walks when it lists values of individuals (normalised text), or None"""
+        f = rc.methods.get(meth)
+        if f is None:
+            return None
+        loops_ = [x for x in stmts_of(f) if isinstance(x, ast.For) and ("individuals" in text(x.iter) or "populations" in text(x.iter))]
+        return text(loops_[0].iter) if loops_ else None
+
     fn = rc.methods.get("table")
+    if fn is not None:
+        zips = [c for c in calls_in(fn) if access_path(c.func) == "zip" and len(c.args) == 2]
+        srcs = []
+        for z in zips:
+            for a in z.args:
+                for c in [a] + calls_in(a):
+                    nm = access_path(c.func) if isinstance(c, ast.Call) else None
+                    if nm and nm.startswith(func_params(fn)[0] + ".") and nm.split(".")[1] in rc.methods:
+                        srcs.append((nm.split(".")[1], traversal(nm.split(".")[1])))
+        kinds = {k for k, _ in srcs}
+        if len(kinds) >= 2 and all(t is not None for _, t in srcs) and len({t for _, t in srcs}) > 1:
+            ctx.violated("R2", "Results.table", where(mod, fn), "rows are built by zipping %s: the two listings walk the individuals in different orders (%s), so for interleaved generation tags a row pairs one individual's parameters with another's costs"
+                         % (" and ".join(sorted(kinds)), "; ".join("%s over %s" % (k, t) for k, t in srcs)), key="lock-step")
+            fn = None
     if fn is not None:
         apps = [c for c in calls_in(fn) if is_method_call(c, "append") and c.args]
         ok = False
